@@ -97,9 +97,14 @@ class RegriddingOperator(LinearOperator):
             if mode == self.ADJOINT_TIMES:
                 shp = list(v.shape)
                 shp[d] = tgtshp[d]
-                xnew = np.zeros_like(v, shape=shp, dtype=v.dtype)
-                xnew = special_add_at(xnew, d, self._bindex[d-d0], v*(1.-wgt))
-                xnew = special_add_at(xnew, d, self._bindex1[d-d0], v*wgt)
+                # the weights are double precision: accumulate in the dtype of
+                # the weighted values (single precision input gets promoted,
+                # exactly as in the TIMES branch)
+                vlo = v*(1.-wgt)
+                vhi = v*wgt
+                xnew = np.zeros_like(vlo, shape=shp, dtype=vlo.dtype)
+                xnew = special_add_at(xnew, d, self._bindex[d-d0], vlo)
+                xnew = special_add_at(xnew, d, self._bindex1[d-d0], vhi)
             else:  # TIMES
                 xnew = v[idx + (self._bindex[d-d0],)] * (1.-wgt)
                 xnew += v[idx + (self._bindex1[d-d0],)] * wgt
